@@ -2,4 +2,6 @@ SPECIFICATION GSpec
 CONSTANTS KA = {"f3", "sub"}
           KB = {"f12"}
           KC = {"frep", "raw1"}
+          RK = {"dir", "hamt"}
+          SK = {"dir", "hamt"}
 INVARIANTS Emit
